@@ -163,6 +163,7 @@ class Engine(w_fsa.Engine):
         cfg["weights"] = w
         cfg["style"] = style
         cfg["memo_rate"] = 0.85 if style == "memo" else rng.choice([0.2, 0.5])
+        cfg["scribble"] = rng.random() < 0.3
         return cfg
 
     def new_world(self, cfg, prop):
@@ -576,6 +577,18 @@ class Engine(w_fsa.Engine):
         bad = self._compare(rh, res, want_paths, with_words, edge_words, bound)
         if bad is None and mode != "end":
             bad = self._vs_fsa(h, res, with_words, L, maxlen, eff, mode)
+        if bad is None and memo is None and world.cfg.get("scribble"):
+            # the caller overwrites, in place, the arrays it was handed by a memo-less call; later
+            # enumerations must not be affected
+            try:
+                arr0 = res[0] if with_words else res
+                if isinstance(arr0, np.ndarray) and arr0.flags.writeable and arr0.size:
+                    arr0[...] = 7
+                    world.stats["probe.caller_scribbled_on_result"] += 1
+                if with_words and isinstance(res[1], list) and res[1]:
+                    res[1].append("#scribble#")
+            except Exception:
+                pass
         if bad is not None:
             inv, detail = bad
             if reused:
